@@ -189,6 +189,36 @@ def assembleIn {α : Type} [DecidableEq α] (d : Fs α) (inputs : List α) (out 
       | none => d
       | some ls => d.write out ls)
 
+/-! ## several names for one file: the output path may denote the file of an input
+
+`Fs` identifies a file with its name.  In a real directory several names may denote the SAME file — other
+spellings of one path (`x`, `./x`, `/abs/x`, `d/../x`), symbolic links, hard links.  `Dir` separates the two:
+`key` resolves a name to the identity of the file it denotes, `store` holds the contents by identity.
+
+The code reads EVERY listed input first (`rtf_contents = [open(f).readlines() for f in input_files]`, through the
+directory as it is when the call starts) and opens the output path only at the very end
+(`open(output_file, "w").writelines(processed_parts)`).  So the output path may denote the file of one of the inputs
+(growing a deliverable in place: `assemble_rtf([a, b], c)`, then `assemble_rtf([c, d], c)`): `assembleInDir` evaluates
+`assembleRtf` over the directory BEFORE the write and then replaces the content of the one file `key out`, which every
+name of that file reads afterwards. -/
+
+structure Dir (α κ : Type) where
+  key : α → κ
+  store : Fs κ
+
+/-- `os.path.exists(p)` / `open(p).readlines()`: the content of the file the name `p` denotes -/
+def Dir.read {α κ : Type} [DecidableEq κ] (d : Dir α κ) (p : α) : Option File := d.store.read (d.key p)
+
+/-- `open(p, "w").writelines(f)`: replaces the content of the file `p` denotes (all its names see it) -/
+def Dir.write {α κ : Type} (d : Dir α κ) (p : α) (f : File) : Dir α κ := { d with store := d.store.write (d.key p) f }
+
+/-- the call in a directory where names resolve to files: all reads first, then the single write -/
+def assembleInDir {α κ : Type} [DecidableEq κ] (d : Dir α κ) (inputs : List α) (out : α) : Outcome α × Dir α κ :=
+  let o := assembleRtf d.read inputs
+  (o, match o.written with
+      | none => d
+      | some ls => d.write out ls)
+
 /-! ## the shape of a file written by rtflite, and the closed form of the result -/
 
 /-- A file cut at its font table:
